@@ -326,13 +326,39 @@ fn framing_and_fidelity(fmt: Fmt, crlf: bool, mode: ModeK) -> Result<(u64, u64),
                 });
             }
         } else {
-            let want = reference_line(fmt, r, &ts, thread);
+            // fidelity as the statement puts it: level, location fields and the message verbatim.
+            // (The exact layout - brackets, blanks - is not part of the property: the line must
+            // END with the message text, and what precedes it must show the level, the location
+            // fields this format function documents, the key-values and the timestamp.)
             let have = if fmt == fmt.plain() { line.clone() } else { strip_ansi(line) };
-            if have != want {
+            let exact = reference_line(fmt, r, &ts, thread);
+            let Some(head) = have.strip_suffix(r.msg.as_str()) else {
                 return Err(Fail {
                     clause: format!("fidelity:{:?}", fmt),
                     cause: format!("{}/{fields}", msg_class(&r.msg)),
-                    detail: format!("record {r:?}\n   rendered : {have:?}\n   reference: {want:?}"),
+                    detail: format!("record {r:?}: the rendered line does not end with the message text verbatim\n   rendered : {have:?}\n   documented layout: {exact:?}"),
+                });
+            };
+            let module = r.module.unwrap_or("<unnamed>");
+            let fileline = format!("{}:{}", r.file.unwrap_or("<unnamed>"), r.line.unwrap_or(0));
+            let mut needed: Vec<String> = vec![r.level.to_string()];
+            match fmt.plain() {
+                Fmt::Default => needed.push(module.to_string()),
+                Fmt::Opt => needed.extend([fileline, ts.clone()]),
+                Fmt::Detailed => needed.extend([module.to_string(), fileline, ts.clone()]),
+                Fmt::WithThread => needed.extend([fileline, ts.clone(), thread.to_string()]),
+                _ => {}
+            }
+            match r.kv {
+                0 => {}
+                1 => needed.push("user=\"a \\\"b\\\"\"".to_string()),
+                _ => needed.extend(["user=\"joe\"".to_string(), "n=42".to_string()]),
+            }
+            if let Some(missing) = needed.iter().find(|n| !head.contains(n.as_str())) {
+                return Err(Fail {
+                    clause: format!("fidelity:{:?}", fmt),
+                    cause: format!("{}/{fields}", msg_class(&r.msg)),
+                    detail: format!("record {r:?}: the part in front of the message does not show {missing:?}\n   rendered : {have:?}\n   documented layout: {exact:?}"),
                 });
             }
         }
